@@ -134,11 +134,11 @@ CHECKS = {
     ),
     "C12": dict(
         level="exploration",
-        rule="rapid draws pictures sized to engage each parallel site (lossy: >=4 macroblock rows; lossless: >50,000 px for the hash chain and tile-parallel predictor/cross-colour/histogram code, >=100,000 px for the parallel inverse cross-colour and ARGB conversion in the decoder; small pictures too) x lossy/lossless options; for GOMAXPROCS drawn from {1,2,3,4,5,6,7,8,12,16,32} (always including 1) Encode bytes (from a flushed-pool state) and Decode pixels must be equal for all values. "
+        rule="rapid draws pictures sized to engage each parallel site (lossy: >=4 macroblock rows; lossless: >50,000 px for the hash chain and tile-parallel predictor/cross-colour/histogram code, >=100,000 px for the parallel inverse cross-colour and ARGB conversion in the decoder; small pictures too) x lossy/lossless options; for GOMAXPROCS drawn from {1,2,3,4,5,6,7,8,12,16,32} (always including 1) Encode bytes (from a flushed-pool state) and Decode pixels must be equal for all values; the large lossless classes also come in extreme shapes (long side 1200..16000). (animation) generated frame sequences are encoded by the animation encoder and read back with DecodeFramesParallel at each GOMAXPROCS: file bytes and every decoded frame must be equal. "
              "On a difference the verif-tagged Workers hook re-runs with single sites pinned to one worker to attribute it to a call site (known findings are keyed by site). "
-             "Non-trivial: at least one parallel site saw more than one worker (hook); distinct = (codec, sites engaged, Method, size class).",
+             "Non-trivial: at least one parallel site saw more than one worker (hook; for animations the frame-parallel decoder with >=2 frames); distinct = (codec, sites engaged, Method, size class).",
         assumptions=["runtime.GOMAXPROCS(n) inside one process stands for a process started with that setting", "pool state normalised before each compared encode"],
-        tests=[dict(name="TestC12", quick=480, thorough=4000)],
+        tests=[dict(name="TestC12", quick=480, thorough=4000), dict(name="TestC12Anim", quick=960, thorough=16000)],
     ),
     "C11": dict(
         level="exploration",
@@ -161,7 +161,7 @@ CHECKS = {
                dict(name="TestC10Lossless", quick=64, thorough=3000),
                dict(name="TestC10Sched", quick=32, thorough=1200, variant="race"), dict(name="TestC10Conc", quick=16, thorough=640, variant="race"),
                dict(name="TestC10Lossless", quick=16, thorough=600, variant="race"),
-               dict(name="TestC10Fresh", quick=240, thorough=16000), dict(name="TestC10Fresh", quick=48, thorough=3000, variant="race")],
+               dict(name="TestC10Fresh", quick=240, thorough=4000), dict(name="TestC10Fresh", quick=48, thorough=320, variant="race")],
     ),
     "C13": dict(
         level="exploration",
